@@ -3,6 +3,7 @@ package mdl
 import (
 	"fmt"
 	"path"
+	"sort"
 	"strings"
 )
 
@@ -435,4 +436,61 @@ func ShareChildren(tree []*Dir, tagA, tagB, mode string) ([]*Dir, bool) {
 		out = append(out, &Dir{ID: 500003, Kw: "MACRO", Params: []Param{{Text: "@shared", NoQuote: true}}, Children: piece, Explicit: "yes"})
 	}
 	return out, true
+}
+
+// Chain distributes the root-level directives that follow JSIGHT over a chain of depth nested INCLUDE files: file i holds
+// some of them before and some after its INCLUDE of file i+1, the deepest file holds the middle of the document; the order
+// of the text is preserved, so the chained project says what the tree says.  Every third file or so lives one directory
+// deeper than its includer (INCLUDE paths are relative to the including file).  Returns nil when there is nothing to move.
+func Chain(r Rnd, tree []*Dir, depth int) []*Dir {
+	out := CloneTree(tree)
+	if len(out) < 2 || depth < 1 {
+		return nil
+	}
+	rest := out[1:]
+	peak := r.Intn(len(rest))
+	level := make([]int, len(rest))
+	draw := func(n int) []int {
+		ls := make([]int, n)
+		for i := range ls {
+			ls[i] = r.Intn(depth + 1)
+		}
+		sort.Ints(ls)
+		return ls
+	}
+	up := draw(peak)
+	down := draw(len(rest) - peak - 1)
+	copy(level, up)
+	level[peak] = depth
+	for i, l := range down {
+		level[len(rest)-1-i] = l
+	}
+	dirs := make([]string, depth+1)
+	names := make([]string, depth+1)
+	for i := 1; i <= depth; i++ {
+		dirs[i] = dirs[i-1]
+		if chance(r, 1, 3) {
+			dirs[i] = path.Join(dirs[i-1], pick(r, []string{"a", "b", "s"}))
+		}
+		names[i] = path.Join(dirs[i], fmt.Sprintf("c%d.jst", i))
+	}
+	var build func(lvl, lo, hi int) []*Dir // the directives rest[lo:hi] all have level >= lvl
+	build = func(lvl, lo, hi int) []*Dir {
+		a, b := lo, hi
+		for a < hi && level[a] == lvl {
+			a++
+		}
+		for b > a && level[b-1] == lvl {
+			b--
+		}
+		list := append([]*Dir(nil), rest[lo:a]...)
+		if lvl < depth {
+			rel := strings.TrimPrefix(strings.TrimPrefix(names[lvl+1], dirs[lvl]), "/")
+			list = append(list, &Dir{ID: 200000 + lvl, Kw: "INCLUDE", Params: []Param{{Text: rel}}, IncludeFile: names[lvl+1], IncludeDirs: build(lvl+1, a, b)})
+		} else {
+			list = append(list, rest[a:b]...)
+		}
+		return append(list, rest[b:hi]...)
+	}
+	return append([]*Dir{out[0]}, build(0, 0, len(rest))...)
 }
